@@ -16,7 +16,13 @@ func H_C19_encrypt_pairs() {
 	ctx := context.Background()
 	k := symLen(0, 3)
 	verifNoteInt("other", k)
-	verifPar(func() { ef.Process(ctx, e1) }, func() {
+	verifPar(func() {
+		out, _ := ef.Process(ctx, e1)
+		if out != nil {
+			// the next node of this pipeline formats the forwarded copy
+			out.FormattedAs("json", []byte("y"))
+		}
+	}, func() {
 		switch k {
 		case 0:
 			ef.Process(ctx, e2)
